@@ -24,6 +24,10 @@ class CallMixin:
         return fi.node.name
 
     def contract_of(self, name: str):
+        cur = self.reg.contracts.get(self.verifying)
+        ov = getattr(cur, "call_overrides", None) if cur is not None else None
+        if ov and name in ov:
+            return ov[name]
         return self.reg.contracts.get(name)
 
     def find_contract_for_ext(self, cls: str, attr: str):
